@@ -138,7 +138,7 @@ Section Kernels.
     let factor := fdec 1 4 in
     let s_na := - ((g 0 + (g 1 * fst p)) + (g 2 * snd p)) in
     let t_na := - ((g 3 + (g 4 * fst p)) + (g 5 * snd p)) in
-    if ((- factor) * feps <=? s_na) && ((- factor) * feps <=? t_na)
+    if ((((- g 6) * factor) * feps) <=? s_na) && ((((- g 6) * factor) * feps) <=? t_na)
        && (((s_na + t_na) - g 6) <=? ((g 6 * factor) * feps)) then
       let s := g 7 * s_na in
       let t' := g 7 * t_na in
@@ -182,4 +182,51 @@ Section Kernels.
                   let t := nth (kd_index nd) (ds_tris s) tri_default in
                   orelse (in_triangle t p) (fun _ => if sph then in_triangle t p' else None))
                (ds_nodes s))))).
+
+  (** ** values at points: merge of corner defaults and listed points (parameters.cc:511-716) *)
+  (** one entry of a "min depth"/"max depth" array: a value and, optionally, the points it holds at *)
+  Definition vap_entry : Type := F * option (list pt2).
+
+  Fixpoint find_same (acc : list (F * pt2)) (p : pt2) (i : nat) : option nat :=
+    match acc with
+    | [] => None
+    | (_, q) :: r => if approx (fst q) (fst p) && approx (snd q) (snd p) then Some i else find_same r p (S i)
+    end.
+
+  Fixpoint set_value (acc : list (F * pt2)) (j : nat) (v : F) : list (F * pt2) :=
+    match acc, j with
+    | [], _ => []
+    | (_, q) :: r, O => (v, q) :: r
+    | x :: r, S j' => x :: set_value r j' v
+    end.
+
+  Definition merge_point (v : F) (acc : list (F * pt2)) (p : pt2) : list (F * pt2) :=
+    match find_same acc p 0 with
+    | Some j => set_value acc j v
+    | None => acc ++ [(v, p)]
+    end.
+
+  Fixpoint set_first (n : nat) (v : F) (acc : list (F * pt2)) : list (F * pt2) :=
+    match n, acc with
+    | S n', (_, q) :: r => (v, q) :: set_first n' v r
+    | _, _ => acc
+    end.
+
+  (** degree -> radian conversion of listed points in spherical worlds: c *= PI/180 *)
+  Definition conv_point (sph : bool) (p : pt2) : pt2 :=
+    if sph then (fst p * (fpi / fofZ 180), snd p * (fpi / fofZ 180)) else p.
+
+  Definition merge_entry (sph : bool) (ncorner : nat) (acc : list (F * pt2)) (e : vap_entry) : list (F * pt2) :=
+    match snd e with
+    | Some ps => fold_left (merge_point (fst e)) (map (conv_point sph) ps) acc
+    | None => set_first ncorner (fst e) acc
+    end.
+
+  (** case 3 of Parameters::get(name, additional_points): corners at the default value, then the entries in order *)
+  Definition merge_values (sph : bool) (default : F) (corners : list pt2) (entries : list vap_entry) : list (F * pt2) :=
+    fold_left (merge_entry sph (length corners)) entries (map (fun c => (default, c)) corners).
+
+  (** Surface constructor: minimum and maximum of the nodal values *)
+  Definition values_min (vs : list F) : F := fold_left (fun m v => if v <? m then v else m) vs (nth 0 vs f0).
+  Definition values_max (vs : list F) : F := fold_left (fun m v => if m <? v then v else m) vs (nth 0 vs f0).
 End Kernels.
